@@ -48,9 +48,9 @@ theorem unmarshalTail_rest (o : Opts) (Ω : Oracles) (vt : Bytes) (vi : Nat) (fs
 theorem unmarshal_serialized (o : Opts) (Ω : Oracles) (ver : String) (vid : Nat) (hver : (ver, vid) ∈ Gen.versions)
     (hfind : Gen.versions.find? (fun p => bs p.1 == bs ver) = some (ver, vid))
     (hnolf : LF ∉ bs ver) (htrim : trim isWs (bs ver ++ crlf) = bs ver)
-    (fs : Fields) (hne : fs ≠ []) (hclean : ∀ nv ∈ fs, CleanField nv) (body : Bytes) :
-    unmarshal H o Ω ⟨bs "WARC/" ++ bs ver ++ crlf ++ Fields.write fs ++ crlf ++ body, false⟩ =
-      (match unmarshalTail H o Ω (bs ver) vid fs ⟨body, false⟩ ⟨[], []⟩ with
+    (fs : Fields) (hne : fs ≠ []) (hclean : ∀ nv ∈ fs, CleanField nv) (body : Bytes) (fault : Bool := false) :
+    unmarshal H o Ω ⟨bs "WARC/" ++ bs ver ++ crlf ++ Fields.write fs ++ crlf ++ body, fault⟩ =
+      (match unmarshalTail H o Ω (bs ver) vid fs ⟨body, fault⟩ ⟨[], []⟩ with
        | (.ok (r, rest), st) => ⟨r, 0, st.fnd, none, rest⟩
        | (.error t, st) => ⟨none, 0, st.fnd, some t, []⟩) := by
   have hstream : bs "WARC/" ++ bs ver ++ crlf ++ Fields.write fs ++ crlf ++ body = bs "WARC/" ++ (bs ver ++ crlf ++ (Fields.write fs ++ crlf ++ body)) := by
@@ -75,7 +75,7 @@ theorem unmarshal_serialized (o : Opts) (Ω : Oracles) (ver : String) (vid : Nat
     simp [crlf, CR, LF]
   simp only [hrb, Bool.not_true, Bool.false_eq_true, ↓reduceIte]
   -- the body of Unmarshal behind the version line
-  have hbody : unmarshalBody H o Ω ⟨X, false⟩ (bs ver ++ crlf) ⟨[], []⟩ = unmarshalTail H o Ω (bs ver) vid fs ⟨body, false⟩ ⟨[], []⟩ := by
+  have hbody : unmarshalBody H o Ω ⟨X, fault⟩ (bs ver ++ crlf) ⟨[], []⟩ = unmarshalTail H o Ω (bs ver) vid fs ⟨body, fault⟩ ⟨[], []⟩ := by
     unfold unmarshalBody
     have hcr : (decide ((bs ver ++ crlf).length < 2) || (bs ver ++ crlf).getD ((bs ver ++ crlf).length - 2) 0 != CR) = false := by
       have hl : (bs ver ++ crlf).length = (bs ver).length + 2 := by simp [crlf]
@@ -86,11 +86,11 @@ theorem unmarshal_serialized (o : Opts) (Ω : Oracles) (ver : String) (vid : Nat
     have hv : versionOf o (bs ver) ⟨[], []⟩ = (.ok (bs ver, vid), ⟨[], []⟩) := by
       unfold versionOf; rw [hfind]; rfl
     simp only [hv]
-    rw [← hX, C19_clean_roundtrip o.syn fs hne hclean body false]
+    rw [← hX, C19_clean_roundtrip o.syn fs hne hclean body fault]
     unfold unmarshalRest
     simp only [M.bind_def, M.addFindings_def, List.append_nil]
   rw [hbody]
-  cases unmarshalTail H o Ω (bs ver) vid fs ⟨body, false⟩ ⟨[], []⟩ with
+  cases unmarshalTail H o Ω (bs ver) vid fs ⟨body, fault⟩ ⟨[], []⟩ with
   | mk res st => cases res with
     | ok v => rfl
     | error t => rfl
